@@ -18,6 +18,17 @@ type ownCtx struct {
 	c    *Ctx
 	memo map[string]int // fn#idx -> 0 unknown(in progress) 1 fresh 2 not
 	fPay *types.Var
+	// skKey: while an installing helper's payload parameter is judged at a call site, the key name (in the caller's
+	// terms) of the key object the helper installs into
+	skKey ssa.Value
+}
+
+// sameKey: a is the key object the payload is installed into, or another object of the same key name.
+func (o *ownCtx) sameKey(a, sk ssa.Value) bool {
+	if sk != nil && (sameBase(a, sk) || sameKeyName(a, sk)) {
+		return true
+	}
+	return o.skKey != nil && keyNameArg(a) == o.skKey
 }
 
 // ownedValue: v is a newly created object (or nil), or derives from the payload of sk itself.
@@ -82,7 +93,7 @@ func (o *ownCtx) ownedValue(v ssa.Value, sk ssa.Value, depth int, why *string) b
 			return n > 0
 		case *ssa.FieldAddr:
 			if fieldOf(a) == o.fPay {
-				if sk != nil && (sameBase(a.X, sk) || sameKeyName(a.X, sk)) {
+				if o.sameKey(a.X, sk) {
 					return true // the same key's previous payload
 				}
 				*why = "it is the payload object of another key (" + a.X.Name() + ")"
@@ -115,13 +126,32 @@ func (o *ownCtx) ownedValue(v ssa.Value, sk ssa.Value, depth int, why *string) b
 			*why = "it is parameter " + x.Name() + " of a function without visible callers"
 			return false
 		}
+		// the key the helper installs into, named by one of its parameters: at the call site the same key's own payload
+		// may be handed in (read, change, install again under the same name)
+		kidx := -1
+		if sk != nil {
+			if kn, ok := keyNameArg(sk).(*ssa.Parameter); ok {
+				for i, p := range fn.Params {
+					if p == kn {
+						kidx = i
+					}
+				}
+			}
+		}
 		for _, e := range node.In {
 			args := e.Site.Common().Args
 			if e.Site.Common().IsInvoke() || idx >= len(args) {
 				*why = "parameter " + x.Name() + " through a dynamic call"
 				return false
 			}
-			if !o.ownedValue(args[idx], nil, depth+3, why) {
+			old := o.skKey
+			o.skKey = nil
+			if kidx >= 0 && kidx < len(args) {
+				o.skKey = args[kidx]
+			}
+			ok := o.ownedValue(args[idx], nil, depth+3, why)
+			o.skKey = old
+			if !ok {
 				return false
 			}
 		}
@@ -206,7 +236,7 @@ func (o *ownCtx) ownedCall(call *ssa.Call, idx int, sk ssa.Value, depth int, why
 	// typed accessor of the receiver's payload: the result is the payload of the key object passed as receiver
 	if len(g.Params) > 0 && len(call.Call.Args) > 0 && o.payloadAccessor(g, idx) {
 		recv := call.Call.Args[0]
-		if sk != nil && (sameBase(recv, sk) || sameKeyName(recv, sk)) {
+		if o.sameKey(recv, sk) {
 			return true
 		}
 		*why = "it is the payload object of another key (through " + fnName(g) + ")"
@@ -443,7 +473,7 @@ func ruleStoreNonEmpty(c *Ctx) {
 		if dead[fnName(fn)] {
 			continue
 		}
-		if _, ex := m6Exempt[fnName(fn)]; ex {
+		if loaderExempt(fn) {
 			continue
 		}
 		n := 0
@@ -468,7 +498,8 @@ func ruleStoreNonEmpty(c *Ctx) {
 			}
 			if g, isCall := v.(*ssa.Call); isCall {
 				// a copy of an existing aggregate: a method of the aggregate type that returns a new object of the same type
-				if cal := g.Call.StaticCallee(); cal != nil && cal.Signature.Recv() != nil && types.Identical(cal.Signature.Recv().Type(), v.Type()) && returnsFreshAlloc(cal) {
+				// (`sl.clone()`, `rebuildDict(src)`: its only argument is the aggregate that is copied)
+				if cal := g.Call.StaticCallee(); cal != nil && len(g.Call.Args) == 1 && types.Identical(g.Call.Args[0].Type(), v.Type()) && returnsFreshObject(cal, 0) {
 					c.S.Trivial("R-store-nonempty", key, c.Pos(st.Pos()), "a clone of an existing (non-empty) aggregate")
 					continue
 				}
@@ -543,14 +574,42 @@ func ruleSelfMove(c *Ctx) {
 	}
 	n := 0
 	for _, fn := range c.SrcFuncs() {
-		// nested removes in this function
-		var rem *MutSite
+		// nested removes in this function: directly, or through a helper that removes from the dictionary it is given
+		var remRecv ssa.Value
 		for _, s := range mm.sites[fn] {
 			if s.Kind == "dict-remove" && !s.Keyspace {
-				rem = s
+				if rc, ok := s.In.(*ssa.Call); ok && len(rc.Call.Args) > 0 {
+					remRecv = rc.Call.Args[0]
+				}
 			}
 		}
-		if rem == nil {
+		if remRecv == nil {
+			for _, in := range instrsOf(fn) {
+				call, ok := in.(*ssa.Call)
+				if !ok {
+					continue
+				}
+				g := call.Call.StaticCallee()
+				if g == nil || g == fn {
+					continue
+				}
+				for _, s := range mm.sites[g] {
+					if s.Kind != "dict-remove" || s.Keyspace {
+						continue
+					}
+					rc, ok := s.In.(*ssa.Call)
+					if !ok || len(rc.Call.Args) == 0 {
+						continue
+					}
+					for k, q := range g.Params {
+						if rc.Call.Args[0] == ssa.Value(q) && k < len(call.Call.Args) {
+							remRecv = call.Call.Args[k]
+						}
+					}
+				}
+			}
+		}
+		if remRecv == nil {
 			continue
 		}
 		var strParams []*ssa.Parameter
@@ -585,8 +644,8 @@ func ruleSelfMove(c *Ctx) {
 		}
 		// key parameter of the removed dictionary: the receiver chain of the remove leads to a lookup call with a string parameter
 		var remKey *ssa.Parameter
-		if rc, ok := rem.In.(*ssa.Call); ok && len(rc.Call.Args) > 0 {
-			v := rc.Call.Args[0]
+		{
+			v := remRecv
 			for d := 0; d < 6 && remKey == nil; d++ {
 				switch x := v.(type) {
 				case *ssa.Extract:
@@ -690,9 +749,15 @@ func ruleDictReadersPure(c *Ctx) {
 			allowed[f] = true
 		}
 	}
+	for _, f := range c.SrcFuncs() {
+		if prim(f) {
+			allowed[f] = true
+		}
+	}
 	for changed := true; changed; {
 		changed = false
-		for f := range writes {
+		// (helpers between a primitive and the writer — store → growApart → rehash — are allowed in the same way)
+		for _, f := range c.SrcFuncs() {
 			if allowed[f] {
 				continue
 			}
@@ -897,7 +962,7 @@ func ruleReplaceClearsTTL(c *Ctx) {
 		if dead[fnName(fn)] {
 			continue
 		}
-		if _, ex := m6Exempt[fnName(fn)]; ex {
+		if loaderExempt(fn) {
 			continue
 		}
 		n := 0
